@@ -117,6 +117,19 @@ def codeblock_names(node):
                 for it in (items.items if hasattr(items, "items") and not isinstance(items, F.Name) and
                            type(items).__name__.endswith("_List") else [items]):
                     target(it)
+        for wst in walk(ast, F.Write_Stmt):
+            # an internal WRITE defines the character variable that is its unit
+            ctl = wst.items[0]
+            first = ctl.items[0] if ctl is not None and hasattr(ctl, "items") and ctl.items else None
+            ns = names_in(first)
+            if ns:
+                try:
+                    from psyclone.psyir.symbols import ScalarType
+                    dt = node.scope.symbol_table.lookup(ns[0]).datatype
+                    if getattr(dt, "intrinsic", None) == ScalarType.Intrinsic.CHARACTER:
+                        defs.add(ns[0])
+                except (KeyError, AttributeError):
+                    pass
         for c in walk(ast, F.Call_Stmt):
             args = c.items[1]
             if args is not None:
